@@ -974,10 +974,13 @@ mod verif_hashtbl {
         {
             let mut d = t.drain();
             let mut n = 0;
-            while n < m {
-                if let Some(x) = d.next() {
-                    assert!(seen & bit(x) == 0 && s.view & bit(x) != 0);
-                    seen |= bit(x);
+            while n < NK {
+                // constant loop bound; `m` calls are made
+                if n < m {
+                    if let Some(x) = d.next() {
+                        assert!(seen & bit(x) == 0 && s.view & bit(x) != 0);
+                        seen |= bit(x);
+                    }
                 }
                 n += 1;
             }
@@ -999,8 +1002,11 @@ mod verif_hashtbl {
         {
             let mut d = t.drain();
             let mut n = 0;
-            while n < m {
-                let _ = d.next();
+            while n < NK {
+                // constant loop bound; `m` calls are made
+                if n < m {
+                    let _ = d.next();
+                }
                 n += 1;
             }
         }
@@ -1115,10 +1121,13 @@ mod verif_hashtbl {
         let mut seen = 0u32;
         let mut it = t.into_iter();
         let mut n = 0;
-        while n < m {
-            if let Some(x) = it.next() {
-                assert!(seen & bit(x) == 0 && s.view & bit(x) != 0);
-                seen |= bit(x);
+        while n < NK {
+            // constant loop bound; `m` calls are made
+            if n < m {
+                if let Some(x) = it.next() {
+                    assert!(seen & bit(x) == 0 && s.view & bit(x) != 0);
+                    seen |= bit(x);
+                }
             }
             n += 1;
         }
